@@ -56,8 +56,9 @@ else:
   json.dump(res, open(rp, 'w'))
 if a.keep:
     d = os.path.join(V, 'seeded', pid, a.keep); os.makedirs(d, exist_ok=True)
-    shutil.copy(patch, d); shutil.copy(demo, d)
-    if os.path.exists(os.path.join(src, 'notes.md')): shutil.copy(os.path.join(src, 'notes.md'), d)
+    if os.path.abspath(src) != os.path.abspath(d):
+        shutil.copy(patch, d); shutil.copy(demo, d)
+    if os.path.abspath(src) != os.path.abspath(d) and os.path.exists(os.path.join(src, 'notes.md')): shutil.copy(os.path.join(src, 'notes.md'), d)
     mp = os.path.join(d, 'meta.json')
     meta = json.load(open(mp)) if os.path.exists(mp) else {'property': pid, 'name': a.keep, 'runs': []}
     if a.needs: meta['needs_to_manifest'] = a.needs
